@@ -353,8 +353,18 @@ impl ParallelCacheState {
                 self.storage.remove(&address);
                 (cached.touch_empty_eip161(), None)
             } else {
+                let info = account.info;
+                // Code can also change without account creation (an EIP-7702 delegation is set or
+                // re-pointed). Workers resolve such code by hash through `contracts` once the
+                // multi-version memory of the block that set it is gone, i.e. in the next block
+                // executed on this state, before anything has been persisted to the database.
+                if !info.is_empty_code_hash() &&
+                    let Some(code) = &info.code
+                {
+                    self.contracts.insert(info.code_hash, code.clone());
+                }
                 let (transition, changed_slots) =
-                    self.get_account_mut(address).change(account.info, changed_storage);
+                    self.get_account_mut(address).change(info, changed_storage);
                 (Some(transition), Some(changed_slots))
             }
         };
